@@ -55,6 +55,10 @@ CHECKS = {
             "technique": "stateful property-based testing (rapid) of real in-process sessions on two real roots; oracle = independent lstat walks + independent classification of (archive, alpha, beta)",
             "note": "Sessions run in no-watch mode and are driven by waiting flushes; the polling-triggered path to a cycle is not exercised here (C42 covers polling). The archive file is read back as the last-synchronized state.",
             "text": "Random warm-up histories build shared content; then one root is deleted, replaced by a file or emptied, with optional edits on the other side. Across two flush attempts, late edits, and a resume, the untouched root must keep every object, and where the classification says the change may not propagate the flush must fail with the matching Halted status, no cycle may complete, and both roots must stay frozen."},
+    "C29": {"level": "exploration", "steps": [step("./c29_lifecycle/", shards={"thorough": 8}, timeout={"quick": 900, "thorough": 5400})],
+            "technique": "stateful property-based testing (rapid) of a real in-process Manager; oracle = history invariants over a sequence-stamped journal of endpoint calls + persisted files + root contents",
+            "note": "The journal wraps the registered local protocol handler (public ProtocolHandlers map); 'no call begins after pause returned' is judged on journal order, not on time; stray activity after the end of a history is only observed for a bounded 50 ms.",
+            "text": "Generated command sequences (edits, pause, resume, waiting and non-waiting flush, reset, terminate, manager restart, flush racing with pause) run against a real session: no scan/stage/supply/transition may begin between a pause's return and the next resume/reset, paused state must survive restarts, a successful waiting flush must enclose a complete scan of both endpoints and deliver all prior edits, terminate must remove session and archive files for good, reset must empty the archive and lose no file."},
     "C06": {"level": "exploration", "steps": RECONCILE_PURE(), "technique": PBT, "note": TREE_NOTE,
             "text": "Same enumeration: no two actions on equal or nested paths, every action sits at a first disagreement found by an independent walker, conflicts have changes on both sides within their root."},
 }
